@@ -412,6 +412,36 @@ def check_class_level_state(repo: Repo, rep: Report, rule: str = "C13.no-shared-
                                         writers.append((f, n))
                                     if isinstance(n, ast.AugAssign) and (dotted(t) or "") in (f"self.{attr}", f"cls.{attr}", f"{c.name}.{attr}"):
                                         writers.append((f, n))  # in-place += on the shared object
+            # ... and from anywhere else in the package, by the class's name or through a local alias of the shared object
+            # (`x = K.ATTR; x += [...]` extends K.ATTR itself)
+            owner_names = {k.qualname for k in owners}
+            for f in repo.functions.values():
+                if f.kind == "module" or f.name == "__init_subclass__" or not f.module.name.startswith("fickling"):
+                    continue
+
+                def is_shared(e):
+                    return isinstance(e, ast.Attribute) and e.attr == attr and isinstance(e.value, ast.Name) and e.value.id not in ("self", "cls") and repo.resolve_expr(f.module, e.value, ()) in owner_names
+
+                binds: Dict[str, list] = {}
+                for n in body_walk(f.node):
+                    if isinstance(n, (ast.Assign, ast.AnnAssign, ast.AugAssign, ast.For, ast.NamedExpr)):
+                        for t in store_targets(n) if not isinstance(n, ast.NamedExpr) else [n.target]:
+                            if isinstance(t, ast.Name) and not isinstance(n, ast.AugAssign):
+                                binds.setdefault(t.id, []).append(n.value if isinstance(n, (ast.Assign, ast.AnnAssign, ast.NamedExpr)) and not isinstance(getattr(n, "targets", [None])[0], (ast.Tuple, ast.List)) else None)
+                aliases = {nm for nm, vs in binds.items() if vs and all(v is not None and (is_shared(v) or (isinstance(v, ast.Attribute) and (dotted(v) or "") in (f"self.{attr}", f"cls.{attr}") and f.cls is not None and f.cls.qualname in owner_names)) for v in vs) and nm not in f.params()}
+
+                def hits(e):
+                    return is_shared(e) or (isinstance(e, ast.Name) and e.id in aliases)
+
+                for n in body_walk(f.node):
+                    if isinstance(n, ast.Call) and isinstance(n.func, ast.Attribute) and n.func.attr in MUTATORS and hits(base_of(n.func.value)):
+                        writers.append((f, n))
+                    if isinstance(n, (ast.Assign, ast.AugAssign, ast.Delete)):
+                        for t in store_targets(n):
+                            if isinstance(t, ast.Subscript) and hits(t.value):
+                                writers.append((f, n))
+                            if isinstance(n, ast.AugAssign) and hits(t):
+                                writers.append((f, n))
             if writers and not shadowed:
                 f, n = writers[0]
                 rep.bad(rule, c.qualname, f"class-level-mutable:{attr}", f"`{attr} = {src(v)}` is bound at class level and mutated through the instance in {f.qualname} (`{src(n)[:60]}`): every {c.name} shares that one object, so two live instances (or one abandoned half-way) corrupt each other's state", c.module.relpath, v.lineno)
